@@ -1973,6 +1973,25 @@ def decide_on_values(pe, text, env, rep=None, generic=True):
                 return Fraction(c)
             if v.op == "sym" and v.payload in rep:
                 return Fraction(rep[v.payload])
+            syms = dag.symbols(v)
+            if syms and syms <= set(rep):
+                # an expression of symbols that all have representatives takes the value of the expression at the representatives
+                try:
+                    c = dag.as_const(dag.substitute(v, {s_: Fraction(rep[s_]) for s_ in syms}))
+                except Exception:
+                    c = None
+                if c is not None:
+                    return Fraction(c)
+                try:        # roots, logarithms ... of the representatives: a numerical value is enough for an ordering
+                    from . import numeval
+                    import mpmath
+
+                    unk = set()
+                    z = numeval.evaluate(v, {s_: mpmath.mpf(rep[s_].numerator) / rep[s_].denominator for s_ in syms}, uninterpreted=unk)
+                    if not unk and abs(mpmath.im(z)) < 1e-30:
+                        return Fraction(str(mpmath.nstr(mpmath.re(z), 30)))
+                except Exception:
+                    pass
             return v            # symbolic, no representative
         raise Unknown()
 
